@@ -127,12 +127,14 @@ namespace
   }
   template<> struct Sources<Mesh1D>
   {
+    static const char* tag() { return "line"; }
     static int count() { return 2; }
     static const char* name(int i) { static const char* n[] = {"unit-interval", "unit-interval-2cells"}; return n[i]; }
     static std::unique_ptr<Mesh1D> make(int i) { return unit_cube<Mesh1D>(i); }
   };
   template<> struct Sources<MeshQ>
   {
+    static const char* tag() { return "quad"; }
     static int count() { return 7; }
     static const char* name(int i) { static const char* n[] = {"quad-orient0", "quad-orient1", "quad-orient2", "quad-orient3", "tetris-quad", "unit-square", "unit-square-4cells"}; return n[i]; }
     static std::unique_ptr<MeshQ> make(int i)
@@ -144,6 +146,7 @@ namespace
   };
   template<> struct Sources<MeshT>
   {
+    static const char* tag() { return "tria"; }
     static int count() { return 7; }
     static const char* name(int i) { static const char* n[] = {"tria-orient0", "tria-orient1", "tria-orient2", "tria-orient3", "patch-tria", "unit-square-tria", "unit-square-tria-refined"}; return n[i]; }
     static std::unique_ptr<MeshT> make(int i)
@@ -155,6 +158,7 @@ namespace
   };
   template<> struct Sources<MeshH>
   {
+    static const char* tag() { return "hexa"; }
     static int count() { return 5; }
     static const char* name(int i) { static const char* n[] = {"hexa-orient0", "hexa-orient1", "hexa-orient2", "tetris-hexa", "unit-cube"}; return n[i]; }
     static std::unique_ptr<MeshH> make(int i)
@@ -166,6 +170,7 @@ namespace
   };
   template<> struct Sources<MeshS>
   {
+    static const char* tag() { return "tetra"; }
     static int count() { return 5; }
     static const char* name(int i) { static const char* n[] = {"tetra-orient0", "tetra-orient1", "tetra-orient2", "big-tetra", "unit-cube-tetra"}; return n[i]; }
     static std::unique_ptr<MeshS> make(int i)
@@ -561,7 +566,7 @@ namespace
     const int npairs = (Mesh_::shape_dim >= 2) ? 2 * ng - 1 : ng * ng; // (id,g), (g,id); 1D: all
     for(int src = 0; src < Src::count() + npairs; ++src)
     for(int dist = 0; dist < 2; ++dist)
-    for(int ref = 0; ref < 2; ++ref)
+    for(int ref = 0; ref < 3; ++ref)
     for(int ps = 0; ps < 8; ++ps)
     for(int pw = 0; pw < 3; ++pw) // which mesh is permuted: 0 coarse, 1 fine, 2 both
     {
@@ -573,20 +578,23 @@ namespace
         const int q = src - Src::count();
         if(Mesh_::shape_dim >= 2) { if(q < ng) g2 = q; else g1 = q - ng + 1; } else { g1 = q / ng; g2 = q % ng; }
       }
-      const std::string sname = is_pair ? ("pair(g" + std::to_string(g1) + ",g" + std::to_string(g2) + ")") : std::string(Src::name(src));
+      const std::string sname = is_pair ? (std::string(Src::tag()) + "-pair(g" + std::to_string(g1) + ",g" + std::to_string(g2) + ")") : std::string(Src::name(src));
       // reduced products
       if(is_pair)
       {
         // orientation pairs: plain in the quick tier; refined / distorted / randomly permuted in the thorough tier
         const bool plain = (dist == 0 && ref == 0 && ps == 0);
-        const bool extra = (dist + ref <= 1) && (ps == 0 || (ps == 7 && pw == 2 && dist == 0));
-        if(!(plain || (c.thorough && extra))) continue;
+        const bool extra = (ref < 2) && (dist + ref <= 1) && (ps == 0 || (ps == 7 && pw == 2 && dist == 0));
+        const bool extra_quick = (Mesh_::shape_dim <= 2) || (E.degree <= 1);
+        if(!(plain || (extra && (c.thorough || extra_quick)))) continue;
         if(Mesh_::shape_dim == 3 && E.degree >= 3 && !c.thorough && (g1 + g2) % 4 != 0) continue;
       }
       const bool multi = is_pair || (ref > 0) || sname.find("orient") == std::string::npos;
       if(ps > 0 && !multi) continue;                         // permuting a one-cell coarse mesh: only through the fine mesh ...
       if(!is_pair)
       {
+        // third level pairs (RRM, RRRM): thorough tier, 1D/2D, unpermuted or randomly permuted
+        if(ref == 2 && !(c.thorough && Mesh_::shape_dim <= 2 && dist == 0 && (ps == 0 || (ps == 7 && pw == 2)))) continue;
         if(Mesh_::shape_dim == 3 && E.degree >= 3 && (ref > 0 || ps > 0) && !(c.thorough && src < 3 && ps == 0)) continue; // cubic 3D elements: small pairs
         if(Mesh_::shape_dim == 3 && ref > 0 && src == 3 && E.degree >= 2 && !c.thorough) continue; // tetris/big meshes refined twice: thorough only
         if(dist == 1 && ps > 0 && !(ps == 7 && pw == 2)) continue;
@@ -602,8 +610,8 @@ namespace
       std::unique_ptr<Mesh_> m0 = is_pair ? pair_mesh<Mesh_>(g1, g2) : Src::make(src);
       if(dist) distort(*m0);
       std::unique_ptr<Mesh_> mc;
-      if(ref == 0) mc = std::move(m0);
-      else { Geometry::StandardRefinery<Mesh_> r(*m0); mc.reset(new Mesh_(r)); }
+      mc = std::move(m0);
+      for(int r = 0; r < ref; ++r) { Geometry::StandardRefinery<Mesh_> rr(*mc); std::unique_ptr<Mesh_> nx(new Mesh_(rr)); mc = std::move(nx); }
       Geometry::StandardRefinery<Mesh_> rf(*mc);
       Mesh_ mf(rf);
       if(ps > 0)
@@ -625,10 +633,12 @@ int main(int argc, char** argv)
     "of the two meshes is permuted); per case all columns of P are checked on a (k+2)-lattice of every fine cell against the coarse basis "
     "functions at the geometrically inverse-mapped points; T*P=I, R=P^T bitwise, matrix-free = matrix, LAFEM::Transfer = matrices. Every "
     "executed case is non-trivial (>= 2 fine cells), hashed by its key";
-  spec.bounds_quick = "1D/quad/tria/hexa/tetra meshes (single cells in all test_aux orientations, tetris/patch/big meshes, unit cubes), pairs (M,RM) and (RM,RRM) "
-    "[3D second pair only for degree 1 on single cells], Lagrange1-3, Discontinuous P0/P1, Bernstein2 (hypercubes); 8 permutation strategies x {coarse,fine,both} "
-    "on multi-cell pairs (3D and degree 3: sub-family), distorted (non-affine) vertex coordinates; cubature auto-degree:(2k+2) and gauss-legendre:(k+1) resp. auto-degree:2k";
-  spec.bounds_thorough = "full product incl. all 3D second-level pairs and all permutation strategies for every element";
+  spec.bounds_quick = "1D/quad/tria/hexa/tetra meshes: single cells in all test_aux orientations, tetris/patch/big meshes, unit cubes, and two-cell meshes whose "
+    "local vertex numberings run through the full symmetry group of the cell ((id,g) and (g,id); |G| = 2/8/6/48/24); level pairs (M,RM) and (RM,RRM) "
+    "[3D cubic elements: first pair only; tetris-hexa/big-tetra second pair only for degree <= 1]; Lagrange1-3, Discontinuous P0/P1, Bernstein2 (hypercubes); "
+    "8 permutation strategies x {coarse,fine,both} on multi-cell pairs; distorted (non-affine) vertex coordinates; orientation pairs also refined/distorted/"
+    "randomly permuted (3D: degree <= 1); cubature auto-degree:(2k+2) and gauss-legendre:(k+1) resp. auto-degree:2k";
+  spec.bounds_thorough = "as quick plus third level pairs (RRM,RRRM) in 1D/2D, all 3D second-level pairs and all orientation-pair variants for every element";
   spec.assumptions = {
     "FEAT space evaluators and dof mappings are used to evaluate basis functions (checked by C15); the trafo is inverted by an own Newton iteration",
     "meshes are permuted after refinement (the convention GridTransfer's 2-level lookup is written for)",
